@@ -594,6 +594,15 @@ func extractC18Round2(c *Ctx, kf, mf, af *ast.File, create, activate, sale *ast.
 		if loops != 1 {
 			return fmt.Errorf("VerifyAuthorisedSignatureDecorator.AnteHandle: expected one top-level loop over msgs, found %d", loops)
 		}
+		// round 6: flattenMsgs must be the recursive walk that REFUSES a transaction nested deeper than
+		// maxNestedMsgDepth (C03's recogniser; any other shape, e.g. returning the part collected so far,
+		// is an unknown shape)
+		maxDepth, err := c03Flatten(c)
+		if err != nil {
+			return err
+		}
+		c.P("(* x/paloma/ante.go: flattenMsgs refuses nesting deeper than *)")
+		c.P("Definition max_nested_depth : Z := %d.", maxDepth)
 		c.P("(* x/paloma/ante.go: VerifyAuthorisedSignatureDecorator.AnteHandle *)")
 		c.P("Definition ante_declared_before_loop : list string := %s.", CoqStrList(outer))
 		c.P("Definition ante_declared_per_message : list string := %s.", CoqStrList(inner))
